@@ -7,7 +7,7 @@ CONSTANTS Depth
 
 Classes == {"identifier", "field", "unexported", "method", "nilderef", "mapfield-ok", "index-range", "index-len", "index-empty", "index-neg", "index-str", "index-strlen", "index-kind", "index-nil",
             "slice-bound", "slice-kind", "operand-mul", "operand-add", "operand-neg", "operand-cmp", "calltarget", "calltarget-nil",
-            "argcount", "argcount-jetfunc", "argtype", "arg-invalid", "underscore", "underscore-jetfunc", "func",
+            "argcount", "argcount-jetfunc", "argtype", "arg-invalid", "underscore", "underscore-jetfunc", "underscore-variadic", "argcount-variadic", "func",
             "len-kind", "ints-range", "pipe-nonfunc"}
 Positions == {"print", "let", "set", "ifcond", "iflet", "rangecoll", "yieldarg", "yieldctx", "ycontentctx", "includectx", "return", "execctx", "yieldnoval", "yieldnoval0"}
 Places == {"main", "layout"}
@@ -36,7 +36,10 @@ MkC(par) ==
       focal  == filler \o <<T("f0")>> \o Failing(pos, class) \o <<T("f1")>>
       r      == Build(path, 1, focal)
       toplet == ~(pos = "print" /\ fill = 1)     \* without a top-level := the failing scope chain reaches the pool as it is
-      body   == <<T("pre")>> \o (IF toplet THEN <<LetS("ls", "s", Lit("s0"))>> ELSE <<>>) \o r.main \o <<T("post")>>
+      \* the failing expression is first mentioned, harmlessly, in a branch that is never taken: an error is
+      \* reported where it happens, not where its text first occurs
+      dead   == <<IfS("dead", Lit("false"), <<P("deadp", Ex("err", class))>>)>>
+      body   == dead \o <<T("pre")>> \o (IF toplet THEN <<LetS("ls", "s", Lit("s0"))>> ELSE <<>>) \o r.main \o <<T("post")>>
       blocks == r.bl \o <<BlockS("bpd", "bp", <<Par("p", Lit("dp"))>>, NoE, <<T("bp")>>), BlockS("b0d", "b0", <<>>, NoE, <<T("b0")>>),
                           BlockS("bqd", "bq", <<>>, NoE, <<T("bq0"), YContentCx("ffq", IF pos = "ycontentctx" THEN Ex("err", class) ELSE Lit("okctx")), T("bq1")>>)>>
       ent    == IF place = "main" THEN <<Tm("main", "", <<"lib">>, body)>>
